@@ -138,6 +138,27 @@ inductive Reachable (nc : NetCfg) : Net → Prop
 /-- the block node `p` has committed at this height -/
 def Net.decided (s : Net) (p : Nat) : Option Nat := (s.nodes p).decided.map (·.1)
 
+/-! ### the commit a node produces (`VoteSet.MakeCommit` of the precommits of the commit round) -/
+
+/-- `BlockIDFlag` of validator `i` in `MakeCommit`: 2 = commit (its stored vote is for the majority
+block), 3 = nil, 1 = absent (no stored vote, or a stored vote for another block) -/
+def commitFlag (vs : VoteSet) (i : Nat) : Nat :=
+  match alookup vs.votes i with
+  | none => 1
+  | some none => 3
+  | some (some b) => if vs.maj23 = some (some b) then 2 else 1
+
+/-- the seen commit of a node that has decided: one flag per validator -/
+def seenCommit (c : Cfg) (s : NodeState) : Option (List Nat) :=
+  (s.votes.precommits s.commitRound).map fun vs => (List.range c.n).map (commitFlag vs)
+
+/-- the power `VerifyCommit` tallies: the validators whose flag is "commit" -/
+def commitPower (c : Cfg) (flags : List Nat) : Nat :=
+  ((List.range c.n).map fun i => if flags.getD i 1 = 2 then c.power i else 0).sum
+
+/-- `ValidatorSet.VerifyCommit` as far as the tally is concerned: more than two thirds for the block -/
+def commitVerifies (c : Cfg) (flags : List Nat) : Bool := 3 * commitPower c flags > 2 * c.total
+
 /-- the verified votes of the log, as the abstract vote log of `Tmv.VoteLog` -/
 def voteOf (m : Msg) : Option VoteLog.VoteMsg :=
   match m.body, m.ok with
